@@ -153,6 +153,9 @@ def check_tree(g, make, res, sigs, desc, maxlen):
                     why = 'call-log'
                 elif ox.snapshot(g, root) != before:
                     why = 'input-modified'
+                elif all(c1[i].__name__ in ('ident', 'fresh_copy') for i in combo) and not (got == root and root == got):
+                    # "with an identity callback the result equals the input" - by the objects' own ==
+                    why = 'identity-result-not-equal-to-input'
             if why:
                 names = [c1[i].__name__ for i in combo]
                 sig = 'transform %s' % why
@@ -174,6 +177,8 @@ def graph_job(job, st):
     if key not in st:
         st[key] = list(ox.scripts(4 if tier == 'quick' else 5, KINDS if tier == 'quick' else ['K0', 'K1', 'K2', 'list', 'dict'],
                                   leaves=[('none',), ('int', 1), ('dstr', 'xy')]))
+        # ... and small graphs whose leaves are NaN objects (x != x for the leaf; the tree still equals itself)
+        st[key] += list(ox.scripts(3, ['K1', 'K2', 'list'], leaves=[('nan',)]))
     scripts = st[key]
     for idx in range(k, len(scripts), NSLICES):
         script = scripts[idx]
@@ -218,11 +223,11 @@ def dispatch(job, st):
 
 def run(tier, seed):
     chk = Check('C16', tier, seed)
-    chk.rule = ('hand-built object DAGs with <=4 (thorough <=5) nodes (two thirds of the objects carry distinct metadata, the rest none, like operator-table nodes) and all parsed trees of '
+    chk.rule = ('hand-built object DAGs with <=4 (thorough <=5) nodes (also <=3 nodes over NaN leaves; two thirds of the objects carry distinct metadata, the rest none, like operator-table nodes) and all parsed trees of '
                 'a term language (sentences <=5/6 symbols, real position metadata) x all callback sequences of length 1..2 over a '
                 'menu of 10 callbacks (identity, K0->None, unwrap to an input sub-tree, rewrite of non-object results, K1->K2 without metadata, K2->scalar, K1->list, wrap, fresh equal copy, replacement '
                 'with own metadata); compared with a bottom-up reference: result incl. metadata of every node, call log '
-                '(argument snapshots in order), input unchanged; non-trivial = the transformation changes the tree')
+                '(argument snapshots in order), input unchanged, identity callbacks: result == input by the own == of the objects; non-trivial = the transformation changes the tree')
     chk.assumptions = ['reference bottom-up rewrite in vf/props/c16.py; callbacks never mutate their argument and never raise']
     jobs = [('graphs', tier, k) for k in range(NSLICES)] + [('parsed', tier, k) for k in range(NSLICES)]
     chk.explore(dispatch, jobs, init=init, chunk=1, job_deadline=900)
